@@ -1,5 +1,7 @@
+mod alloc;
 mod ast;
 mod c01;
+mod c05;
 mod c03;
 mod c04;
 mod c06;
@@ -28,6 +30,9 @@ mod wf;
 
 use ev::Tier;
 
+#[global_allocator]
+static GLOBAL: alloc::Counting = alloc::Counting;
+
 fn usage() -> ! {
     eprintln!("usage: vcheck <ID> <quick|thorough> | vcheck <ID> --replay <file>");
     std::process::exit(2);
@@ -40,6 +45,10 @@ fn main() {
     }
     ev::quiet_panics();
     let id = args[1].as_str();
+    if id == "C05-WORKER" {
+        let a: serde_json::Value = serde_json::from_str(&args[2]).unwrap_or_else(|e| ev::machinery(&format!("worker args: {e}")));
+        std::process::exit(c05::worker_main(&a));
+    }
     let (tier, replay): (Tier, Option<serde_json::Value>) = match args[2].as_str() {
         "quick" => (Tier::Quick, None),
         "thorough" => (Tier::Thorough, None),
@@ -64,6 +73,7 @@ fn main() {
         "C02" => c01::run_c02(tier, filter, depth),
         "C03" => c03::run_check(tier, rp),
         "C04" => c04::run(tier, rp),
+        "C05" => c05::run(tier, rp),
         "C06" => c06::run(tier, filter),
         "C07" => c07::run(tier, filter),
         "C08" => c08::run_c08(tier, rp),
